@@ -366,7 +366,7 @@ def gen_cases(ctx, want):
         out.append(("q-" + sid, s))
     catx = catalogue("x")
     for sid, s in enumerate_systems(catx, 2):
-        if ctx.quick and len(s["cons"]) == 2 and rng.random() > 0.4:
+        if ctx.quick and len(s["cons"]) == 2 and rng.random() > 0.2:
             continue
         out.append(("x-" + sid, s))
     if not ctx.quick:
